@@ -17,7 +17,7 @@ template <int Size, int Align>
 struct Bytes {
   alignas(Align) unsigned char b[Size];
 };
-// Cat: 0 trivial, 1 optout, 2 tr, 3 ntr, 4 throwmove
+// Cat: 0 trivial, 1 optout, 2 tr, 3 ntr, 4 throwmove, 5 throwasg
 template <int Size, int Align, int Cat>
 struct S;
 template <int Size, int Align>
@@ -56,6 +56,16 @@ struct S<Size, Align, 4> {
   S() {}
   S(const S &o) : d(o.d) {}
   S(S &&o) : d(o.d) {}
+  S &operator=(const S &o) { d = o.d; return *this; }
+  S &operator=(S &&o) { d = o.d; return *this; }
+  ~S() {}
+};
+template <int Size, int Align>
+struct S<Size, Align, 5> {
+  Bytes<Size, Align> d;
+  S() {}
+  S(const S &o) : d(o.d) {}
+  S(S &&o) noexcept : d(o.d) {}
   S &operator=(const S &o) { d = o.d; return *this; }
   S &operator=(S &&o) { d = o.d; return *this; }
   ~S() {}
